@@ -23,11 +23,24 @@ type MemConn struct {
 	Writes   int
 	Closed   bool
 	WriteErr error
+	// PartialWrite, when armed (PartialWriteArmed), makes the NEXT Write pass only its first PartialWrite
+	// bytes and then fail with ErrInjectedWrite (one-shot): a write deadline firing in mid-frame.
+	PartialWrite      int
+	PartialWriteArmed bool
 	// Writes, if RecordWrites is set, keeps every Write call's bytes separately
 	// (cedar writes exactly one frame per Write call).
 	RecordWrites bool
 	WriteLog     [][]byte
 }
+
+// ErrInjectedWrite is what an armed partial write returns.
+var ErrInjectedWrite = errInjected{}
+
+type errInjected struct{}
+
+func (errInjected) Error() string   { return "injected write failure (deadline in mid-frame)" }
+func (errInjected) Timeout() bool   { return true }
+func (errInjected) Temporary() bool { return true }
 
 type memAddr string
 
@@ -73,6 +86,23 @@ func (c *MemConn) Write(p []byte) (int, error) {
 		return 0, c.WriteErr
 	}
 	c.Writes++
+	if c.PartialWriteArmed {
+		c.PartialWriteArmed = false
+		k := c.PartialWrite
+		if k > len(p) {
+			k = len(p)
+		}
+		c.Out = append(c.Out, p[:k]...)
+		if c.RecordWrites {
+			c.WriteLog = append(c.WriteLog, append([]byte(nil), p[:k]...))
+		}
+		peer := c.Peer
+		c.mu.Unlock()
+		if peer != nil {
+			peer.Feed(p[:k])
+		}
+		return k, ErrInjectedWrite
+	}
 	c.Out = append(c.Out, p...)
 	if c.RecordWrites {
 		c.WriteLog = append(c.WriteLog, append([]byte(nil), p...))
